@@ -25,8 +25,9 @@ RULE = ("generated datasets: baseline/reporting x daily(frame, from_series, hour
 ASSUMPTIONS = ["a day with valid temperature: daily feed = value present; hourly feed = all hours present (days are generated whole or absent)",
                "the length criterion is judged on local calendar days first..last complete row",
                "fractional day counts (DST days, hourly rows) are not judged within 1 day of a threshold: the statement does not say how they round"]
-REQUIRED_REACH = {"dataset.judged": 100, "criterion.judged": 500, "criterion.expected_dq": 60, "criterion.exact_threshold": 20,
-                  "warning.condition_generated": 20, "post_init.counters": 100, "class.daily": 40, "class.billing": 10, "class.hourly": 10}
+REQUIRED_REACH = {"dataset.judged": 100, "criterion.judged": 500, "criterion.expected_dq": 60, "criterion.exact_threshold": 10,
+                  "warning.condition_generated": 20, "post_init.counters": 100, "class.daily": 40, "class.billing": 10, "class.hourly": 10, "entry.billing_from_series": 12,
+                  "entry.billing_from_series_first_and_last_period_differ": 6, "billing.span_on_a_length_threshold": 6, "billing.day_count_compared": 10}
 UNIVERSE = {"no_data", "incorrect_number_of_total_days", "too_many_days_with_missing_data", "too_many_days_with_missing_meter_data",
             "too_many_days_with_missing_temperature_data", "missing_monthly_temperature_data", "missing_monthly_meter_data",
             "missing_monthly_ghi_data", "negative_meter_values"}
@@ -321,6 +322,31 @@ def run_billing(spec, rng, keys):
         steps[int(rng.integers(1, nper - 1))] = int(rng.integers(5, 25))
     elif off == "long":
         steps[int(rng.integers(1, nper - 1))] = int(rng.integers(36, 50))
+    if spec.get("target_days") and not off:
+        # total span placed on a length threshold (329/330, 365/366): spread the difference over the interior periods, keep 25..35 days each
+        diff = int(spec["target_days"]) - int(steps.sum())
+        j = 1
+        while diff != 0 and j < 10 * nper:
+            i = 1 + (j % max(1, nper - 2))
+            stp = 1 if diff > 0 else -1
+            if 26 <= steps[i] + stp <= 34:
+                steps[i] += stp
+                diff -= stp
+            j += 1
+        if spec.get("first_longer_than_last") is not None and nper > 2:
+            a, b = (33, 28) if spec["first_longer_than_last"] else (27, 34)
+            d0 = (steps[0] - a) + (steps[-1] - b)
+            steps[0], steps[-1] = a, b
+            j = 1
+            while d0 != 0 and j < 10 * nper:
+                i = 1 + (j % max(1, nper - 2))
+                stp = 1 if d0 > 0 else -1
+                if 26 <= steps[i] + stp <= 34:
+                    steps[i] += stp
+                    d0 -= stp
+                j += 1
+        if int(steps.sum()) == int(spec["target_days"]):
+            I.reach("billing.span_on_a_length_threshold")
     days = int(steps.sum())
     start = pd.Timestamp("2018-01-01") + pd.Timedelta(days=int(rng.integers(0, 300)))
     didx = pd.date_range(start.tz_localize(tz), periods=days + 1, freq="D")
@@ -336,8 +362,30 @@ def run_billing(spec, rng, keys):
     # frame convention of the billing classes: the final row is the last day *of* the last period (inclusive end)
     df = pd.DataFrame({"temperature": TT, "observed": obs.values}, index=didx).iloc[:-1]
     electric = True
+    entry = spec.get("entry", "frame")
     try:
-        data = (em.BillingBaselineData if role == "baseline" else em.BillingReportingData)(df, is_electricity_data=electric)
+        cls = em.BillingBaselineData if role == "baseline" else em.BillingReportingData
+        if entry == "frame":
+            data = cls(df, is_electricity_data=electric)
+        else:
+            # from_series: reads (with the closing NaN read) + a temperature feed that starts before the first read and runs past the
+            # last one (the feed of a weather station is not cut to the meter's span); same information as the frame
+            eb, ea = int(spec.get("extra_before", 0)), int(spec.get("extra_after", 0))
+            fidx = pd.date_range((start - pd.Timedelta(days=eb)).tz_localize(tz), periods=days + 1 + eb + ea, freq="D")
+            fT = np.round(daily_weather(rng, fidx), 2)
+            fT[eb:eb + days + 1] = TT
+            reads = pd.Series(vals, index=didx[starts], name="usage")
+            if entry == "series":
+                feed = pd.Series(fT, index=fidx, name="temp")
+            else:
+                hidx = pd.date_range(fidx[0], fidx[-1] + pd.Timedelta(hours=23), freq="h")
+                pos = fidx.get_indexer(hidx.normalize())
+                hidx, pos = hidx[pos >= 0], pos[pos >= 0]
+                feed = pd.Series(fT[pos] + np.round(3 * np.sin(2 * np.pi * (hidx.hour.values - 15) / 24), 2), index=hidx, name="temp")
+            I.reach("entry.billing_from_series")
+            if steps[0] != steps[-1]:
+                I.reach("entry.billing_from_series_first_and_last_period_differ")
+            data = cls.from_series(reads, feed, is_electricity_data=electric)
     except Exception as e:
         add("well-formed-input-rejected:%s:billing" % type(e).__name__, "billing/%s raised %s: %s" % (role, type(e).__name__, str(e)[:200]),
             spec={k: v for k, v in spec.items() if k not in ("seed", "tier", "i")})
@@ -353,11 +401,19 @@ def run_billing(spec, rng, keys):
     t = rows.asi8 if rows.unit == "ns" else rows.as_unit("ns").asi8
     exp, margins = CR.expected(t, local_dates(rows), usage_ok, temp_ok, role == "baseline", usage_supplied=True)
     cond = ["utc_index"] if tz == "UTC" else []
-    cond.append("unable_to_confirm_daily_temperature_sufficiency")
+    if entry != "series-hourly":
+        cond.append("unable_to_confirm_daily_temperature_sufficiency")
     if off:
         cond.append("offcycle_reads_in_billing_monthly_data")
-    judge(data, exp, margins, tz in NO_DST, spec, cond)
-    keys.add("billing|%s|%s|%d|%s|%d|%s" % (role, tz, days, off, spec["k_temp"], ",".join(sorted(exp))))
+    # the class's own day count is the billed span (first read .. last read, local calendar days)
+    cnt = COUNTERS[-1] if COUNTERS else None
+    if cnt is not None and not off and not spec["k_temp"]:
+        I.reach("billing.day_count_compared")
+        if int(cnt["n_days_total"]) != days:
+            add("day-count-differs-from-billed-span:billing/%s" % entry, "billing/%s (%s entry): the class counted %r days, the reads span %d local calendar days" % (role, entry, cnt["n_days_total"], days),
+                spec={k: v for k, v in spec.items() if k not in ("seed", "tier", "i")})
+    judge(data, exp, margins, tz in NO_DST and entry != "series-hourly", spec, cond)
+    keys.add("billing|%s|%s|%s|%d|%s|%d|%s" % (role, entry, tz, days, off, spec["k_temp"], ",".join(sorted(exp))))
 
 
 def gen_cases(tier, seed):
@@ -414,6 +470,19 @@ def gen_cases(tier, seed):
         role = "baseline" if rng.random() < 0.7 else "reporting"
         cases.append(dict(kind="billing", family="billing", role=role, tz=tz, n_periods=int(rng.choice([10, 11, 12, 12, 13])), k_temp=int(rng.choice([0, 0, 3, 20, 40])),
                           how_temp=str(rng.choice(["random", "one_month", "run"])), offcycle=[None, None, "short", "long"][int(rng.integers(0, 4))], n=20000 + i))
+    for i in range(20 if q else 240):
+        tz = str(rng.choice(NO_DST + DST))
+        role = "baseline" if rng.random() < 0.7 else "reporting"
+        cases.append(dict(kind="billing", family="billing", role=role, tz=tz, n_periods=int(rng.choice([10, 11, 12, 12, 13])), k_temp=int(rng.choice([0, 0, 3, 20, 40])),
+                          how_temp=str(rng.choice(["random", "one_month", "run"])), offcycle=[None, None, None, "short", "long"][int(rng.integers(0, 5))],
+                          entry=["series", "series-hourly"][i % 2], extra_before=int(rng.choice([0, 0, 1, 3, 12])), extra_after=int(rng.choice([0, 1, 2, 5, 9, 20])), n=30000 + i))
+        if i % 3 == 0:
+            cases[-1].update(offcycle=None, n_periods=12, target_days=[365, 366, 364, 330, 329][(i // 3) % 5], first_longer_than_last=[True, False, None][(i // 3) % 3], k_temp=0)
+            if cases[-1]["target_days"] < 340:
+                cases[-1]["n_periods"] = 11
+    for i in range(6 if q else 60):
+        cases.append(dict(kind="billing", family="billing", role="baseline", tz=str(rng.choice(NO_DST + DST)), n_periods=12 if i % 5 < 3 else 11, k_temp=0, how_temp="random", offcycle=None,
+                          entry="frame", target_days=[365, 366, 364, 330, 329][i % 5], n=40000 + i))
     return cases
 
 
